@@ -48,7 +48,7 @@ PROPS["C07"] = dict(
     n=dict(quick=(25, 40), thorough=(300, 600)),
     assumptions=["model = hand-written Gallina mirror of generator.h, bracket.h, vee.h, *Tangent_base.h (hat, smallAdj, GeneratorEvaluator, VeeEvaluatorImpl, InnerWeights); tied to /repo by exact comparison over the rational scalar on this run's cases",
                  "theorems are over Coq's classical reals (exact arithmetic, which is what the property's last sentence asks for); floating-point evaluation is only tested",
-                 "Bundle tangents: covered by C11's bundle model once claimed"],
+                 "Bundle tangents: three layouts run through the same correspondence and predicate (generators at the algebra offsets, out-of-range index, bracket, inner weights); theorems for Bundles are the block structure of C11"],
 )
 
 def sweep_tangent(g, gd, maxang=None, linmax=6):
@@ -80,19 +80,27 @@ def gen_sweep(op, linmax=6):
         return c
     return f
 
+def elem_tparts(gd):
+    """the tangent parts of a group split per element group: [[(kind, n), ...], ...] (one entry for an element group,
+    one per element for a Bundle: each element has its own rotation angle)"""
+    return [list(e.tparts) for e in gd.elems] if getattr(gd, "elems", None) else [list(gd.tparts)]
+
 def tangent_stats(c):
-    """(theta^2, max |linear component|) of the first tangent argument of a case"""
-    gd = corr.group(c["group"]) if not c["group"].startswith("B") else None
-    if gd is None: return None, None
+    """(theta^2, max |linear component|) of the first tangent argument of a case; for a Bundle theta^2 is the largest of
+    the elements' squared rotation magnitudes"""
+    gd = corr.group(c["group"])
     sig = corr.OPSIG[c["op"]][0]
     for k, a in zip(sig, c["args"]):
         if k in "TU":
-            i = 0; th2 = Fr(0); lin = Fr(0)
-            for kind, n in gd.tparts:
-                part = a[i:i + n]; i += n
-                if kind == "lin": lin = max([lin] + [abs(x) for x in part])
-                else: th2 += sum(x * x for x in part)
-            return th2, lin
+            i = 0; th2max = Fr(0); lin = Fr(0)
+            for parts in elem_tparts(gd):
+                th2 = Fr(0)
+                for kind, n in parts:
+                    part = a[i:i + n]; i += n
+                    if kind == "lin": lin = max([lin] + [abs(x) for x in part])
+                    else: th2 += sum(x * x for x in part)
+                th2max = max(th2max, th2)
+            return th2max, lin
     return None, None
 
 def gen_below_pi(op, strata=("zero", "tiny", "below_thr", "at_thr", "above_thr", "small", "generic")):
@@ -192,14 +200,17 @@ def gen_p03(g, gn):
     return c
 
 def p03_post(c, outs, sc):
-    """rotation angle of log(X) is at most pi"""
+    """rotation angle of log(X) is at most pi (for a Bundle: of every element's log)"""
     import math
-    gd = corr.group(c["group"]); l = outs[6]; i = 0; th2 = 0
-    for kind, n in gd.tparts:
-        part = l[i:i + n]; i += n
-        if kind != "lin": th2 += sum(float(x) ** 2 for x in part)
+    gd = corr.group(c["group"]); l = outs[6]; i = 0; worst = 0.0
+    for parts in elem_tparts(gd):
+        th2 = 0
+        for kind, n in parts:
+            part = l[i:i + n]; i += n
+            if kind != "lin": th2 += sum(float(x) ** 2 for x in part)
+        worst = max(worst, math.sqrt(th2))
     lim = math.pi * (1 + 1e-9) if sc != "q" else math.pi * (1 + 1e-6)
-    return [] if math.sqrt(th2) <= lim else [(8, "rotation angle of log(X) = %.17g > pi" % math.sqrt(th2))]
+    return [] if worst <= lim else [(8, "rotation angle of log(X) = %.17g > pi" % worst)]
 
 def gen_moderate_tangent(op):
     """tangent whose components are all moderate (|.| <= 3): power series in ad_t converge quickly"""
@@ -1136,6 +1147,31 @@ def replay(pid, P, path):
     print("case:", corr.case_line(0, case)); print("impl :", res[0]["impl"]); print("model:", res[0]["model"])
     return 0 if res[0]["impl"] == res[0]["model"] else 1
 
+# ---- Bundles in the per-property checks ("every provided group ... and bundles of them"): one layout (three for C07) is added
+# to the groups of these properties; the correspondence runs the property's operations on it against the Bundle model
+# (coq/Bundle.v) and the predicates are evaluated on it.  Pairs a predicate does not define for a Bundle are dropped for
+# bundle cases only (the harness builds hom(p) / the algebra representation of X for the element groups, not for a product):
+# they are covered element-wise by P11 (C11).
+B1 = "B[R1,SO3,SE2]"
+# (C02, C05, C06 keep to the element groups: their sweeps aim at the switch-over bands where the recorded findings F8a-c live,
+#  and the same inaccuracies seen through a Bundle would be the same defects under another name.)
+BUNDLE_EXTRA = {"C01": ([B1], {"P01": ["hom(act(X,p))=T(X)hom(p)"]}), "C03": ([B1], {}), "C04": ([B1], {}),
+                "C07": (BUNDLES_QUICK, {}), "C09": ([B1], {})}
+def _bundle_drop(pd, names):
+    idx = set(i for i, nm in enumerate(pd["pairs"]) if nm in names)
+    assert len(idx) == len(names), (pd["op"], names)
+    old = pd.get("drop")
+    def drop(c, bad):
+        if old: bad = old(c, bad)
+        if c["group"].startswith("B["): bad = [(k, why) for k, why in bad if k not in idx]
+        return bad
+    pd["drop"] = drop
+for _pid, (_bl, _drops) in BUNDLE_EXTRA.items():
+    _P = PROPS[_pid]; _P["groups"] = list(_P["groups"]) + [b for b in _bl if b not in _P["groups"]]
+    for _pd in _P["preds"]:
+        if _pd["op"] in _drops: _bundle_drop(_pd, _drops[_pd["op"]])
+    _P["assumptions"] = list(_P["assumptions"]) + ["Bundle layout(s) %s are included in this check's correspondence and predicates (model coq/Bundle.v)" % ", ".join(_bl)]
+
 def extra_specs():
     """further harness binaries the registered checks need (built by tools/setup to warm the cache)"""
     specs = []
@@ -1146,6 +1182,7 @@ def extra_specs():
     for sc in ("D", "E"): specs += corr.harness_specs(base, True, 2, sc)                     # dual numbers (C12)
     bset = sorted(set(corr.BUNDLES[b] for b in BUNDLES_QUICK))
     for sc in ("q", "d"): specs += corr.harness_specs(bset, True, False, sc)                 # bundle layouts (C11, C14)
+    specs += corr.harness_specs([corr.BUNDLES[B1]], True, False, "h")                         # one bundle layout over 100 digits (C03)
     specs += [dict(name="hsan%s" % s_, source="main.cpp", defines=["-DVQ_GROUPSET=%s" % s_, "-DVQ_SCALAR=1"],
                    flags=("-std=c++11", "-O1", "-g", "-fsanitize=address,undefined", "-fno-sanitize-recover=all", "-fno-omit-frame-pointer"), libs=("-lgmpxx", "-lgmp", "-lmpfr")) for s_ in base]
     specs += [dict(name="threads_plain", source="threads.cpp", defines=[], flags=("-std=c++11", "-O2", "-pthread"), libs=()),
